@@ -188,7 +188,7 @@ class GatedRun:
             if self.holder == i:
                 self.holder = None
         if pr.exited:
-            pr.end = self.step
+            pr.end = self.step - 1       # the step of its last call
             if self.holder == i:
                 self.holder = None
         return call
